@@ -334,8 +334,12 @@ def decide(pid, tier, seed, replay, t0):
                 if not mod.known_match(l, "", msg, known):
                     failures.append((l, msg))
                     break
-    for kl in sorted(set(known_lines))[:20]:
-        log(kl)
+    grouped = {}
+    for kl in known_lines:
+        head, _, example = kl.rpartition(" [")
+        grouped.setdefault(head, []).append(example.rstrip("]"))
+    for head, ex in sorted(grouped.items()):
+        log("%s (%d matching inputs this run, e.g. %s)" % (head, len(ex), ex[0][:160]))
     wall = time.time() - t0
     coverage = {
         "obligations": info["obligations"], "discharged": info["discharged"],
